@@ -410,6 +410,13 @@ func (e *env) modify(s *session, st *Step) {
 		rec := &opRec{op: op, sess: s.idx, seq: e.opSeq}
 		if old := e.allOps[op.GetId()]; old != nil {
 			e.probe("operation id reused")
+			if old.sess != s.idx && (old.state == opHeld || old.state == opSent) {
+				if e.shadow == nil {
+					e.shadow = map[uint64]*opRec{}
+				}
+				e.shadow[op.GetId()] = old
+				e.probe("id of an operation still held for an earlier session used again")
+			}
 		}
 		s.sent[op.GetId()] = rec
 		e.allOps[op.GetId()] = rec
